@@ -58,6 +58,8 @@ type Exec struct {
 
 	usedExt       map[string]bool
 	usedContracts map[string]bool
+	inSpecFailure bool
+	urlOrigin     map[int]Term // parsed *url.URL object -> the text it was parsed from
 	sprintfFmt    map[string]string // result term of fmt.Sprintf -> its format literal
 	iterBase      int // recorded calls before the current loop iteration (for itercalls)
 	inlined       map[string]bool
@@ -106,6 +108,16 @@ func NewExec(prog *Program, fn *ssa.Function) *Exec {
 }
 
 func (x *Exec) unsupported(st *State, why string) {
+	// a contract clause that cannot be evaluated against the current source (a local it names no longer
+	// exists, a field changed type, ...) is a failed obligation, not an unexplored path: the clause was
+	// established on the unchanged tree and cannot be established now
+	if st != nil && strings.HasPrefix(why, "spec \"") && len(st.frames) > 0 && x.contract != nil && !x.inSpecFailure {
+		x.inSpecFailure = true
+		x.oblige(st, "contract", "contract clause can be evaluated against the current source: "+why, TFalse, token.NoPos, x.contract.Props)
+		x.inSpecFailure = false
+		st.dead = true
+		return
+	}
 	where := ""
 	if st != nil && len(st.frames) > 0 {
 		fr := st.top()
